@@ -142,6 +142,9 @@ impl Oracle for C09 {
     fn prop(&self) -> &'static str {
         "C09"
     }
+    fn params(&self) -> serde_json::Value {
+        json!({"continuation": self.continuation})
+    }
 
     fn before(&self, w: &mut World, mon: &mut Mon, ev: &Ev, check: bool) {
         if check {
